@@ -50,7 +50,7 @@ def run(ctx):
                           {"case": c, "got": got})
     ctx.traces += len(cases)
     ctx.nontrivial += sum(1 for c in cases if c["kind"] in ("dir", "prefix", "unsupported") or not c["plain"])
-    mid = cases[len(cases) // 2]
+    mid = next((c for c in cases if c["kind"] == "dir" and c["depth"] == 2 and not c["t"] and c["loc"] == "FE15"), cases[len(cases) // 2])
     ctx.sample({"localize": {"loc": mid["loc"], "lang": mid["lang"], "path": bytes(mid["raw"]).decode("utf8", "replace"),
                              "allowed": [bytes(a["s"]).decode("utf8", "replace") if a["ok"] else "Err" for a in mid["allowed"]]}})
     # 3. the filesystem clause
